@@ -390,6 +390,7 @@ def step (_ : St) (w : List String) : St × Out :=
         | "patch", [_, _, _] => some (unmodelled name)
         | "construct", [_] => some (unmodelled name)
         | "asput", [_, _] => some (unmodelled name)
+        | "pbspr", [_, _] => some (unmodelled name)
         | "asins", [_, _] => some (unmodelled name)
         | "ptrsetf", [_, _, _] => some (unmodelled name)
         | _, _ => none
